@@ -163,6 +163,23 @@ func vPFill(size int, salt int64) *Store[int, int] {
 		}
 	}
 	s.Wait()
+	if size >= 150 {
+		// a cache that has shrunk: most keys are deleted again, the survivors are hot. The sketch of the loading
+		// cache is sized from the number of saved entries, i.e. smaller than the one the frequencies were counted in
+		keep := 45 + rnd.Intn(18)
+		live := []int{}
+		s.RangeEntry(func(e *Entry[int, int]) { live = append(live, e.key) })
+		for i, k := range live {
+			if i >= keep {
+				s.Delete(k)
+			}
+		}
+		s.Wait()
+		s.policyMu.Lock()
+		s.RangeEntry(func(e *Entry[int, int]) { s.policy.sketch.Addn(s.hasher.Hash(e.key), 15) })
+		s.policyMu.Unlock()
+		return s
+	}
 	if rnd.Intn(2) == 0 {
 		// a warm cache: high access frequencies (counters shared between keys get close to saturation)
 		s.policyMu.Lock()
@@ -217,6 +234,9 @@ func vPersistRun(tr *vTrace, id string, salt int64, bytesN int) {
 		// large enough for the sketch table to be re-allocated while the cache fills (entries saved with frequency 0)
 		size = 66 + rnd.Intn(70)
 	}
+	if salt%8 == 5 {
+		size = 150 + rnd.Intn(100) // shrinks again before it is saved (vPFill)
+	}
 	s := vPFill(size, salt)
 	defer s.Close()
 	// elapsed time between save and load: move the clock origin of the saved cache back
@@ -243,6 +263,13 @@ func vPersistRun(tr *vTrace, id string, salt int64, bytesN int) {
 	if rnd.Intn(3) == 0 {
 		version = 0 // the zero version is an ordinary version number
 	}
+	// every other run: small data blocks, so that the regions of the saved cache span several blocks
+	// (BlockBufferSize is a variable in the verif build; 4 MB otherwise)
+	oldBlock := BlockBufferSize
+	if rnd.Intn(2) == 0 {
+		BlockBufferSize = 30 + rnd.Intn(170)
+	}
+	defer func() { BlockBufferSize = oldBlock }()
 	if err := s.Persist(version, &buf); err != nil {
 		tr.Emit(vRec{"ev": "saveerr", "id": id})
 		return
@@ -270,7 +297,7 @@ func vPersistRun(tr *vTrace, id string, salt int64, bytesN int) {
 		// what the loaded cache serves right away (before its first tick): key/value pairs of the hits
 		served := [][]int{}
 		if fault == "none" && kind == "none" {
-			for k := 0; k <= 300; k++ {
+			for k := 0; k <= 600; k++ {
 				if v, ok := s2.Get(k); ok {
 					served = append(served, []int{k, v})
 				}
@@ -324,6 +351,10 @@ func vPersistRun(tr *vTrace, id string, salt int64, bytesN int) {
 	for n := 0; n < len(blocks); n++ {
 		fb := cp()[:n]
 		emitLoad("truncate", fb, vPEncode(fb), version, size)
+		// ... and into a cache that is full long before the stream ends
+		if small := 1 + size/4; n >= 2 {
+			emitLoad("truncate", fb, vPEncode(fb), version, small)
+		}
 	}
 	for i := range blocks {
 		fb := append(cp()[:i], blocks[i+1:]...)
@@ -388,7 +419,11 @@ func vPersistRun(tr *vTrace, id string, salt int64, bytesN int) {
 		if b%7 == 0 {
 			ver++
 		}
-		rec, kind, s2 := vPLoad(dmg, ver, size)
+		bsize := size
+		if b%2 == 1 {
+			bsize = 1 + size/4 // a cache that is full long before the stream ends
+		}
+		rec, kind, s2 := vPLoad(dmg, ver, bsize)
 		rec["ev"] = "byteload"
 		rec["fault"] = what
 		rec["err"] = kind
